@@ -83,12 +83,13 @@ def gen_cases(ctx):
         cases = num + sch
     # 3. concrete classes
     kinds = ["exact", "tebd", "tdvp1", "tdvp2", "tdvp2site", "bug", "fixedbug"]
-    reps = ctx.n(2, 12)
+    reps = ctx.n(6, 30)
     for r in range(reps):
         for kind in kinds:
             cases.append({"kind": "class", "algo": kind, "seed": rng.randrange(10 ** 9),
                           "n": rng.choice([2, 3, 3, 4]), "steps": rng.choice([2, 3, 4]),
-                          "k": rng.choice([1, 2, "inf"]), "spec": rng.choice(["single", "list", "dict"])})
+                          "k": rng.choice([1, 2, "inf"]), "spec": rng.choice(["single", "list", "dict"]),
+                          "gauge": rng.choice([None, "start", "start", "random"])})
     return cases
 
 
@@ -224,6 +225,17 @@ def _build_problem(case):
     phys = {i: info["open"][i][0] for i in range(n)}
     H, Hm = algos.hermitian_ttno(rng, nprng, par, phys, names, n_terms=2)
     order = sorted(ttns.nodes)
+    # the caller may hand over a state that is already canonical: at the node the TDVP sweep starts from,
+    # or anywhere else (derived data such as the gauge centre and caches must still be rebuilt on reset)
+    gauge = case.get("gauge")
+    if gauge:
+        from pytreenet.util.tensor_splitting import SplitMode
+        from pytreenet.time_evolution.time_evo_util.update_path import TDVPUpdatePathFinder
+        if gauge == "start":
+            centre = TDVPUpdatePathFinder(ttns).find_path()[0]
+        else:
+            centre = order[case["seed"] % len(order)]
+        ttns.canonical_form(centre, mode=SplitMode.KEEP if case["seed"] % 2 else SplitMode.REDUCED)
     dims = dense.phys_dims(ttns, order)
     opmats, tps = [], []
     for _ in range(3):
